@@ -445,12 +445,14 @@ func desc(p []event) []string {
 }
 
 // explore runs BFS for one cache capacity.
-func explore(r *evid.Run, capacity, maxN, depth int) {
+func explore(r *evid.Run, capacity, maxN, depth int, initial []event, seen map[string]bool) {
 	type node struct{ path []event }
-	seen := map[string]bool{}
-	w0 := newWorld(capacity)
+	w0 := build(capacity, initial)
+	if seen[w0.key()] {
+		return
+	}
 	seen[w0.key()] = true
-	frontier := []node{{nil}}
+	frontier := []node{{initial}}
 	var states, transitions int64 = 1, 0
 	for d := 0; d < depth && len(frontier) > 0; d++ {
 		if r.Expired() {
@@ -496,21 +498,44 @@ func explore(r *evid.Run, capacity, maxN, depth int) {
 	r.States.Add(states)
 	r.Transitions.Add(transitions)
 	r.Validated.Add(transitions)
-	r.Part(map[string]any{"scenario": fmt.Sprintf("cache capacity %d, log length <= %d, BFS depth %d", capacity, maxN, depth), "states": states, "transitions": transitions, "unexpanded_frontier": len(frontier)})
+	r.Part(map[string]any{"scenario": fmt.Sprintf("cache capacity %d, log length <= %d, BFS depth %d from initial state %v", capacity, maxN, depth, desc(initial)), "states": states, "transitions": transitions, "unexpanded_frontier": len(frontier)})
 	if len(frontier) > 0 {
-		r.Extra(fmt.Sprintf("capacity%d_frontier_left_at_depth_bound", capacity), len(frontier))
+		r.AddExtra(fmt.Sprintf("capacity%d_frontier_left_at_depth_bounds", capacity), int64(len(frontier)))
 	}
 }
 
 func Run(r *evid.Run) {
 	r.Check = "c06"
-	maxN, depth, caps := 4, 7, []int{1, 2}
+	maxN, depth, caps := 5, 8, []int{1, 2, 3}
 	if r.Thorough() {
-		maxN, depth, caps = 5, 9, []int{1, 2, 3, 8}
+		maxN, depth, caps = 6, 10, []int{1, 2, 3, 8}
 	}
-	r.Rule(fmt.Sprintf("state = (log entries 1..n each of a type from {encoded small, encoded large, config-change, empty application}, compaction marker, applied index, the cache's index run, cache capacity); transitions = append, apply, compact-to-j (clears the shard cache like the engine's LogCompacted handler), and for every first in 1..applied+1(+2) and maxSize in {1, one small entry, two small entries+1, unlimited} a query through the real Cached reader / the real LogServer.Replicate over it (these mutate the cache); in every new structural state all queries through the real Simple reader and an uncached LogServer are checked too. BFS to depth %d, n <= %d, capacities %v, visited set on the complete tuple (cache run via hook dump). The Raft log is a model of dragonboat's LogReader (GetRange/Entries incl. size cut and at-least-one rule)", depth, maxN, caps))
+	r.Rule(fmt.Sprintf("state = (log entries 1..n each of a type from {encoded small, encoded large, config-change, empty application}, compaction marker, applied index, the cache's index run, cache capacity); transitions = append, apply, compact-to-j (clears the shard cache like the engine's LogCompacted handler), and for every first in 1..applied+1(+2) and maxSize in {1, one small entry, two small entries+1, unlimited} a query through the real Cached reader / the real LogServer.Replicate over it (these mutate the cache); in every new structural state all queries through the real Simple reader and an uncached LogServer are checked too. BFS to depth %d from the empty log and to depth-2 from non-initial states (4 small entries applied; small/large/config/empty applied; large/small/small applied), n <= %d, capacities %v, visited set on the complete tuple (cache run via hook dump). The Raft log is a model of dragonboat's LogReader (GetRange/Entries incl. size cut and at-least-one rule)", depth, maxN, caps))
+	// BFS from the empty log and from non-initial states (logs already appended and applied), sharing
+	// one visited set per capacity
+	pre := func(types ...int) []event {
+		var p []event
+		for _, t := range types {
+			p = append(p, event{Kind: "append", T: t})
+		}
+		for range types {
+			p = append(p, event{Kind: "apply"})
+		}
+		return p
+	}
+	initials := [][]event{nil, pre(tSmall, tSmall, tSmall, tSmall), pre(tSmall, tLarge, tConfig, tEmpty), pre(tLarge, tSmall, tSmall)}
+	if r.Thorough() {
+		initials = append(initials, pre(tSmall, tSmall, tSmall, tSmall, tSmall), pre(tLarge, tLarge, tSmall, tSmall, tLarge))
+	}
 	for _, c := range caps {
-		explore(r, c, maxN, depth)
+		seen := map[string]bool{}
+		for i, ini := range initials {
+			d := depth
+			if i > 0 {
+				d = depth - 2
+			}
+			explore(r, c, maxN, d, ini, seen)
+		}
 	}
 	runConformance(r)
 	ex := []event{{Kind: "append", T: tLarge}, {Kind: "append", T: tSmall}, {Kind: "apply"}, {Kind: "apply"}, {Kind: "query", First: 1, Max: 1 << 30}, {Kind: "replicate", First: 1, Max: 1}}
